@@ -53,7 +53,7 @@ def model_configs(thorough):
   t = thorough
   cf = {}
   # --- time expressions
-  cf["time_d"] = _c("time", "dense", chars("05:.msft -+" + ("h9" if t else "")), dense=5 if t else 4)
+  cf["time_d"] = _c("time", "dense", chars("05:.msft -+"), dense=5 if t else 4)
   cf["time_g"] = _c("time", "guided", chars("036:.hmsft" if t else "06:.hmsft"), maxlen=13 if t else 12, run=3)
   cf["time_e"] = _c("time", "guided", chars("06:.hmsft" if t else "0:.hmsft"),
                     junk=chars("6 -+x\n" + FW0 + "HS;,e" + NBSP), maxlen=13 if t else 12, run=2, edits=1)
@@ -61,35 +61,39 @@ def model_configs(thorough):
   cf["length_d"] = _c("length", "dense", chars("05-.px%c " + ("+e" if t else "")), dense=5 if t else 4)
   cf["length_d3"] = _c("length", "dense", chars("05+-.pxemc%rhw "), dense=4 if t else 3)
   cf["length_g"] = _c("length", "guided", chars("05+-.pxemc%rhw" + ("9" if t else "")), maxlen=9 if t else 8, run=4 if t else 3)
-  cf["length_e"] = _c("length", "guided", chars("05+-.pxemc%rhw" if t else "0+-.pxemc%rhw"),
-                      junk=chars("5 ,P\n" + FW0 + "E" + NBSP), maxlen=8 if t else 7, run=2, edits=1)
+  cf["length_e"] = _c("length", "guided", chars("0+-.pxemc%rhw"),
+                      junk=chars("5 ,P\n" + FW0 + ("E" + NBSP if t else "")), maxlen=8 if t else 6, run=2, edits=1)
   # --- colours
   cf["colour_d"] = _c("colour", "dense", chars("#0fred(,)" + ("aF" if t else "")), dense=5 if t else 4)
-  hexa = "0fA9" if t else "0fA"
-  cf["colour_g"] = _c("colour", "guided", chars(LOWER + "#(,)" + hexa) + pieces("255"), maxlen=16, run=99)
-  cf["colour_e"] = _c("colour", "guided", chars(LOWER + "#(,)0" + ("F" if t else "")) + pieces("255"),
-                      junk=chars(" Rx\n-" + FW0 + ".%") + pieces("256", "1000"), maxlen=16, edits=1)
+  cf["colour_hex"] = _c("colour", "guided", chars("#0fA9" if t else "#fA"), maxlen=10)
+  cf["colour_fn"] = _c("colour", "guided", chars(LOWER + "(,)0") + pieces("255"), maxlen=22 if t else 20, run=2)
+  cf["colour_e_hex"] = _c("colour", "guided", chars("#0f" if t else "#0"), junk=chars("fFg \n" + FW0 + "x"), maxlen=10, edits=1)
+  cf["colour_e_fn"] = _c("colour", "guided", chars(LOWER + "(,)0"), junk=(chars(" Rx\n-" + FW0 + ".%") + pieces("255", "256", "1000")) if t else (chars(" R\n") + pieces("256")),
+                         maxlen=18, run=2 if t else 1, edits=1)
   # --- font families
   cf["font_d"] = _c("font", "dense", chars("a-1 ,\"'\\\u00e9" + ("_b" if t else "")), dense=5 if t else 4)
   fams = ["a", "ab", "a b", "\"a\"", "'a b'", "\"a\\\"b\"", "serif", "\"serif\"", "-a", "a1", "\\,a", "sansSerif"]
   seps = [",", ", ", " ,", " "]
   bad = ["1a", "\"", "''", "\\"]
   cf["font_c"] = _c("font", "dense", pieces(*(fams + seps + bad)), dense=4 if t else 3)
-  cf["font_g"] = _c("font", "guided", chars("ab-1 ,\"'\\_" + "\u00e9") + pieces("serif"), maxlen=6 if t else 5, run=2)
+  cf["font_g"] = _c("font", "guided", chars("ab-1 ,\"'\\_" + "\u00e9") + pieces("serif"), maxlen=5 if t else 4, run=2)
   cf["font_ser"] = _c("font", "ser")
   # --- positions (components)
-  odd = pieces("\t", "  ", "", NBSP, "\n", EMSP)
-  pos = ["left", "right", "top", "center", "10%", "-5px", "1x"] + (["bottom", "0.5em", "Left"] if t else [])
-  cf["position_g"] = _c("position", "guided", pieces(*pos), maxlen=4, edits=1, odd=odd, oddlen=4 if t else 3)
+  odd = pieces("\t", "  ", "", NBSP, "\n", EMSP) if t else pieces("\t", "  ", NBSP)
+  pos = ["left", "top", "center", "10%", "-5px", "1x"] + (["right", "bottom", "Left"] if t else [])
+  cf["position_g"] = _c("position", "guided", pieces(*pos), maxlen=4, edits=1, odd=odd, oddlen=2)
   cf["position_5"] = _c("position", "guided", pieces("left", "10%", "top", "center"), maxlen=6 if t else 5)
   # --- parameters
-  cf["extent_g"] = _c("extent", "guided", pieces("10px", "+5px", "0px", "2em", "10", "px", "-1px", "5%"), maxlen=3, edits=1,
+  cf["extent_g"] = _c("extent", "guided", pieces(*(["10px", "+5px", "2em", "10", "-1px", "5%"] + (["0px", "px"] if t else []))), maxlen=3, edits=1,
                       odd=odd, oddlen=2)
-  cf["area_g"] = _c("area", "guided", pieces("0%", "10%", "100%", "101%", "5px", "50"), maxlen=5, edits=1,
-                    odd=odd, oddlen=1 if not t else 4)
+  cf["area_g"] = _c("area", "guided", pieces("0%", "100%", "101%", "5px", "50") + (pieces("+10%", "-0%") if t else []), maxlen=4,
+                    edits=1, odd=odd, oddlen=3 if t else 1)
+  cf["area_5"] = _c("area", "guided", pieces("0%", "100%", "5px") + (pieces("101%") if t else []), maxlen=6 if t else 5)
   for g in ("cellres", "fmult", "aspect", "dar"):
     cf[g + "_d"] = _c(g, "dense", chars("012 \tx" + ("-." if t else "")), dense=5 if t else 4)
-    cf[g + "_e"] = _c(g, "guided", chars("01 \t"), junk=chars("x-+.\n" + NBSP + FW1 + ","), maxlen=7 if t else 6, run=2, edits=1)
+    if g == "dar" and not t:
+      continue          # same code shape as ittp:aspectRatio: the dense family is enough in the quick tier
+    cf[g + "_e"] = _c(g, "guided", chars("01 \t"), junk=chars("x-.\n" + NBSP + FW1 + (",+" if t else "")), maxlen=7 if t else 5, run=2, edits=1)
   for g in ("frate", "trate"):
     cf[g + "_d"] = _c(g, "dense", chars("019 x." + ("-+" if t else "")), dense=4 if t else 3)
     cf[g + "_e"] = _c(g, "guided", chars("01"), junk=chars("x-+. \n" + FW1 + AI5), maxlen=5 if t else 4, run=4, edits=1)
@@ -101,7 +105,7 @@ def model_configs(thorough):
 def ser_names(thorough):
   """names (lists of code points) of the serialisation model: all strings of 1..n characters over a small alphabet"""
   import itertools
-  alphabet = "a \"'\\," + ("b" if thorough else "")
+  alphabet = "a \"'\\,"
   n = 3 if thorough else 2
   out = []
   for k in range(1, n + 1):
@@ -865,67 +869,90 @@ GRAMMARS = ["time", "length", "colour", "font", "position", "frate", "trate", "c
 
 # ---------------------------------------------------------------------------------------------------------------
 # 4. lexical features of an input (for grouping violations and for the selectors of known findings)
+#    Facts about the *text* only - never about what the parser did, never a verdict.
 # ---------------------------------------------------------------------------------------------------------------
 XML_WS = " \t\n\r"
+_NUM = r"(?:[0-9]+|[0-9]*\.[0-9]+)"
+_LEN = r"[+-]?%s(?:px|em|c|%%|rh|rw)" % _NUM
+_LEN_RE = re.compile(_LEN)
+_CLOCK_RE = re.compile(r"([0-9]{2,}):([0-9]{2}):([0-9]{2})(?:\.([0-9]+)|:([0-9]{2,})(?:\.([0-9]+))?)?")
+_OFFSET_RE = re.compile(r"[0-9]+(?:\.[0-9]+)?(?:h|m|s|ms|f|t)")
+_HEX_RE = re.compile(r"#(?:[0-9a-fA-F]{6}|[0-9a-fA-F]{8})")
+_FN_RE = re.compile(r"rgb\(([0-9]+),([0-9]+),([0-9]+)\)|rgba\(([0-9]+),([0-9]+),([0-9]+),([0-9]+)\)")
+
+
+def ascii_digits(text):
+  """every non-ASCII decimal digit (category Nd) replaced by the ASCII digit of the same value"""
+  import unicodedata
+  out = []
+  for c in text:
+    d = unicodedata.decimal(c, None) if ord(c) > 127 else None
+    out.append(str(d) if d is not None else c)
+  return "".join(out)
 
 
 def features(gram, text):
-  """Facts about the *text* only (never about what the parser did)."""
+  import unicodedata
   f = {"gram": gram, "length": len(text)}
-  f["ascii"] = all(ord(c) < 128 for c in text)
-  f["odd_digit"] = any((c.isdigit() or c.isdecimal() or c.isnumeric()) and c not in ASCII_DIGITS for c in text)
-  f["trailing_newline"] = text.endswith("\n") and not text[:-1].endswith(("\n", " ", "\t", "\r")) and "\n" not in text[:-1]
-  core = text[:-1] if f["trailing_newline"] else text
-  f["lead_ws"] = core[:1] != "" and core[:1].isspace()
-  f["trail_ws"] = core[-1:] != "" and core[-1:].isspace()
-  f["inner_ws"] = any(c.isspace() for c in core.strip())
-  f["non_xml_ws"] = any(c.isspace() and c not in XML_WS for c in text)
-  f["upper"] = any(c.isupper() for c in text)
+  f["odd_digit"] = any(ord(c) > 127 and unicodedata.decimal(c, None) is not None for c in text)
+  f["trailing_newline"] = text.endswith("\n") and "\n" not in text[:-1]
+  # the text without one final newline, with foreign decimal digits replaced: what the remaining facts describe
+  strip = f["trailing_newline"] and gram in ("time", "length", "colour", "extent", "area")
+  core = ascii_digits(text[:-1] if strip else text)
+  f["lead_ws"] = core[:1].isspace()
+  f["trail_ws"] = core[-1:].isspace()
+  f["non_xml_ws"] = any(c.isspace() and c not in XML_WS for c in core)
+  f["upper"] = any(c.isupper() for c in core)
   f["empty"] = text == ""
   if gram == "time":
-    m = re.fullmatch(r"([0-9]{2,}):([0-9]{2}):([0-9]{2})(?:\.([0-9]+)|:([0-9]{2,})(?:\.([0-9]+))?)?", core)
-    f["clock_shape"] = bool(m)
+    m = _CLOCK_RE.fullmatch(core)
+    shape = "none"
+    f["minutes_over_59"] = f["seconds_over_60"] = f["subframes_zero"] = False
+    f["frames"] = -1
     if m:
+      shape = "clock" if m.group(4) is None and m.group(5) is None else "clock_fraction" if m.group(4) is not None else \
+        "clock_frames" if m.group(6) is None else "clock_subframes"
       f["minutes_over_59"] = int(m.group(2)) > 59
       f["seconds_over_60"] = int(m.group(3)) > 60 or (int(m.group(3)) == 60 and m.group(4) is not None and int(m.group(4)) != 0)
-      f["has_frames"] = m.group(5) is not None
-      f["has_subframes"] = m.group(6) is not None
+      f["frames"] = min(int(m.group(5)), 1000) if m.group(5) is not None else -1
       f["subframes_zero"] = m.group(6) is not None and int(m.group(6)) == 0
+    elif _OFFSET_RE.fullmatch(core):
+      shape = "offset"
+    f["core_shape"] = shape
+  elif gram == "length":
+    f["core_ok"] = bool(_LEN_RE.fullmatch(core))
+  elif gram == "colour":
+    squeezed = "".join(c for c in core if not c.isspace())
+    m = _FN_RE.fullmatch(squeezed)
+    if _HEX_RE.fullmatch(core) or core in NAMED or (_FN_RE.fullmatch(core) and all(int(x) <= 255 for x in _FN_RE.fullmatch(core).groups() if x)):
+      cls = "strict"
+    elif core.lower() in NAMED:
+      cls = "named_ci"
+    elif m and squeezed != core and all(int(x) <= 255 for x in m.groups() if x) and core[:4] in ("rgb(", "rgba") and core.endswith(")"):
+      cls = "fn_ws"
     else:
-      f["minutes_over_59"] = f["seconds_over_60"] = f["has_frames"] = f["has_subframes"] = f["subframes_zero"] = False
-  if gram in ("colour",):
-    f["named_ci"] = core.lower() in NAMED
-    f["named_exact"] = core in NAMED
-    f["function"] = core.lower().startswith("rgb")
-    f["function_ws"] = bool(re.fullmatch(r"rgba?\([0-9 \t\n\r\x0b\x0c,]*\)", core)) and any(c.isspace() for c in core)
-  if gram == "font":
+      cls = "none"
+    f["core_class"] = cls
+  elif gram == "font":
     f.update(font_features(core))
-  if gram in ("position", "extent", "area"):
+  elif gram in ("position", "extent", "area"):
     toks = core.split()
     f["components"] = len(toks)
     f["single_spaces"] = core == " ".join(toks)
     f["lwsp_only"] = all(c in XML_WS for c in core if c.isspace())
-    if gram == "position":
-      kinds = []
-      for tk in toks:
-        if tk in ("left", "right"):
-          kinds.append("H")
-        elif tk in ("top", "bottom"):
-          kinds.append("V")
-        elif tk == "center":
-          kinds.append("C")
-        elif re.fullmatch(r"[+-]?(?:[0-9]+|[0-9]*\.[0-9]+)(?:px|em|c|%|rh|rw)", tk):
-          kinds.append("L")
-        else:
-          kinds.append("X")
-      f["kinds"] = "".join(kinds)
-  if gram in ("cellres", "fmult", "aspect", "dar"):
+    f["inner_lwsp_only"] = f["lwsp_only"] and not f["lead_ws"] and not f["trail_ws"]
+    kinds = []
+    for tk in toks:
+      kinds.append("H" if tk in ("left", "right") else "V" if tk in ("top", "bottom") else "C" if tk == "center"
+                   else "L" if _LEN_RE.fullmatch(tk) else "X")
+    f["kinds"] = "".join(kinds)
+    f["units"] = "".join(sorted(set(re.sub(r"^[+-]?[0-9.]*", "", tk) for tk in toks if _LEN_RE.fullmatch(tk))))
+  elif gram in ("cellres", "fmult", "aspect", "dar"):
     m = re.fullmatch(r"([0-9]+)([ \t\n\r]+)([0-9]+)", core)
-    f["pair_shape"] = bool(m)
-    f["single_space"] = bool(m) and m.group(2) == " "
+    f["pair_lwsp"] = bool(m)                                  # digits LWSP digits
+    f["pair_full"] = bool(m) and m.group(2) == " "            # digits SPACE digits
     f["zero_component"] = bool(m) and (int(m.group(1)) == 0 or int(m.group(3)) == 0)
-    m2 = re.match(r"[0-9]+ [0-9]+", core)
-    f["pair_prefix"] = bool(m2) and not bool(re.fullmatch(r"[0-9]+ [0-9]+", core))
+    f["pair_prefix"] = bool(re.match(r"[0-9]+ [0-9]+", core)) and not f["pair_full"]
   return f
 
 
@@ -936,39 +963,42 @@ _UNQ = r"%s(?:[ \t\n\r]+%s)*" % (_IDENT, _IDENT)
 _DQ = r"\"(?:[^\"\\]|\\.)+\""
 _SQ = r"'(?:[^'\\]|\\.)+'"
 _FAMILY = r"(?:%s|%s|%s)" % (_UNQ, _DQ, _SQ)
-_FAMILIES_RE = re.compile(r"(%s)(?:[ \t\n\r]*,[ \t\n\r]*(%s))*" % (_FAMILY, _FAMILY), re.S)
+_SEP = r"[ \t\n\r]*,[ \t\n\r]*"
+_FAMILIES_RE = re.compile(r"%s(?:%s%s)*" % (_FAMILY, _SEP, _FAMILY), re.S)
 _FAMILY_RE = re.compile(_FAMILY, re.S)
+_SEP_RE = re.compile(_SEP)
 
 
 def font_features(text):
-  """shape facts of a tts:fontFamily text (which constructs occur); used only to group / select findings"""
-  f = {}
-  f["well_formed"] = bool(_FAMILIES_RE.fullmatch(text))
-  items = []
+  """which constructs of <font-families> occur in the text"""
+  f = {"well_formed": bool(_FAMILIES_RE.fullmatch(text))}
+  items = []          # (family text, separator text before it, separator text after it)
   if f["well_formed"]:
     pos = 0
+    before = ""
     while pos < len(text):
       m = _FAMILY_RE.match(text, pos)
-      if not m:
-        break
-      items.append(m.group(0))
+      fam = m.group(0)
       pos = m.end()
-      m2 = re.compile(r"[ \t\n\r]*,[ \t\n\r]*").match(text, pos)
-      if not m2:
+      m2 = _SEP_RE.match(text, pos)
+      after = m2.group(0) if m2 and pos < len(text) else ""
+      items.append((fam, before, after))
+      before = after
+      pos = m2.end() if after else pos
+      if not after:
         break
-      pos = m2.end()
-  unq = [x for x in items if x[:1] not in "\"'"]
-  quo = [x for x in items if x[:1] in "\"'"]
+  unq = [x for x in items if x[0][:1] not in "\"'"]
+  quo = [x for x in items if x[0][:1] in "\"'"]
   f["families"] = len(items)
-  f["single_char_name"] = any(len(x) == 1 for x in unq)
-  f["two_char_escape_name"] = any(re.fullmatch(r"\\.", x, re.S) for x in unq)
-  f["unquoted_multi_ws"] = any(re.search(r"[ \t\n\r]{2,}|[\t\n\r]", x) for x in unq)
-  f["ws_before_comma"] = bool(re.search(r"[ \t\n\r],", re.sub(r"\"(?:[^\"\\]|\\.)*\"|'(?:[^'\\]|\\.)*'", "Q", text, flags=re.S)))
-  f["ws_after_unquoted"] = f["well_formed"] and bool(re.search(
-    r"(?<![\"'])[ \t\n\r]+,", re.sub(r"\"(?:[^\"\\]|\\.)*\"|'(?:[^'\\]|\\.)*'", "\"\"", text, flags=re.S)))
-  f["quoted_backslash_end"] = any(re.search(r"\\\\.$", x[:-1] + "$", re.S) is not None and x[:-1].endswith("\\\\") for x in quo)
-  f["quoted_has_escape"] = any("\\" in x for x in quo)
-  f["unquoted_has_escape"] = any("\\" in x for x in unq)
-  f["quoted_ws_only"] = any(x[1:-1].strip() == "" for x in quo)
-  f["quoted_inner_quote"] = any(("'" in x[1:-1] and x[0] == "\"") or ("\"" in x[1:-1] and x[0] == "'") for x in quo)
+  # an unquoted name made of a single identifier character (a character or one escape)
+  f["one_char_name"] = any(re.fullmatch(r"(?:\\.|[^\\])", x[0], re.S) is not None for x in unq)
+  # white space between an unquoted name and the following comma
+  f["ws_after_unquoted"] = any(x[2][:1] != "," and x[2] != "" for x in unq)
+  # white space other than SPACE between a comma and the following name
+  f["odd_ws_after_comma"] = any(re.search(r"[\t\n\r]", x[1].split(",", 1)[1]) is not None for x in items if x[1] != "")
+  # a quoted name that contains a LINE FEED
+  f["quoted_contains_newline"] = any("\n" in x[0] for x in quo)
+  # a quoted name whose last character is an escaped backslash
+  f["quoted_ends_in_backslash"] = any(re.search(r"(?<!\\)(?:\\\\)+$", x[0][1:-1]) is not None for x in quo)
+  f["has_escape"] = "\\" in text
   return f
